@@ -408,6 +408,7 @@ impl Verdict {
         let mut paths = vec![];
         if !self.violations.is_empty() {
             let dir = Path::new(VERIF).join("replays").join(&self.prop);
+            let _ = std::fs::remove_dir_all(&dir);
             let _ = std::fs::create_dir_all(&dir);
             let keys: Vec<&str> = self.violations.keys().map(|k| k.as_str()).collect();
             let _ = std::fs::write(dir.join("summary.txt"), keys.join("\n"));
